@@ -620,49 +620,53 @@ HugeCall(a, arg) == Refuse(a, arg, FALSE)
 BufExcl(h, needmut) == ~IsNull(h) /\ ~Shared(h) /\ (needmut => ~rec[h].imm)
 TypOf(h) == IF IsNull(h) THEN "raw" ELSE rec[h].typ
 
-\* C calls with a huge offset (x) or a huge length (hl; no data is handed over then)
+\* C calls with a huge offset or a huge length (hl: no data is handed over then).  A huge block
+\* count of mpt_slice_write is not offered: the call writes as many blocks as memory allows.
+PS == {0, MaxArg}
+NS == {0, 1, MaxArg}
 NextHugeC ==
-  \E h \in H, x \in HOffs, y \in HLongs, p \in {0, MaxArg}, n \in {0, 1, MaxArg} :
-     /\ Prune => h = 1
-     /\ \/ BufExcl(h, TRUE) /\ HugeCall("bufcut", [h |-> h, off |-> x, n |-> n])
-        \/ BufExcl(h, TRUE) /\ HugeCall("bufcut", [h |-> h, off |-> p, n |-> x])
-        \/ BufExcl(h, FALSE) /\ HugeCall("bufinsert", [h |-> h, pos |-> x, data |-> Fresh(n), hl |-> 0])
-        \/ BufExcl(h, FALSE) /\ n = 0 /\ HugeCall("bufinsert", [h |-> h, pos |-> p, data |-> <<>>, hl |-> x])
-        \/ BufExcl(h, TRUE) /\ HugeCall("bufset", [h |-> h, typ |-> TypOf(h), pos |-> x, data |-> Fresh(n), zero |-> 0, hl |-> 0])
-        \/ BufExcl(h, TRUE) /\ n = 0 /\ HugeCall("bufset", [h |-> h, typ |-> TypOf(h), pos |-> p, data |-> <<>>, zero |-> 1, hl |-> x])
-        \/ n = 0 /\ p = 0 /\ HugeCall("append", [h |-> h, data |-> <<>>, zero |-> 1, hl |-> x])
-        \/ HugeCall("insert", [h |-> h, pos |-> x, data |-> Fresh(n), hl |-> 0])
-        \/ n = 0 /\ HugeCall("insert", [h |-> h, pos |-> p, data |-> <<>>, hl |-> x])
-        \/ p = 0 /\ TypOf(h) # "n" /\ HugeCall("settyped", [h |-> h, typ |-> IF TypOf(h) = "raw" THEN "c" ELSE TypOf(h),
-                                                              data |-> Fresh(n), off |-> y, zero |-> 0, hl |-> 0])
-        \/ n = 0 /\ HugeCall("settyped", [h |-> h, typ |-> IF TypOf(h) = "raw" THEN "c" ELSE TypOf(h),
-                                           data |-> <<>>, off |-> p, zero |-> 1, hl |-> x])
-        \/ HugeCall("slice", [h |-> h, off |-> x, data |-> Zeros(n), fill |-> 0, hl |-> 0])
-        \/ n = 0 /\ HugeCall("slice", [h |-> h, off |-> p, data |-> <<>>, fill |-> 0, hl |-> x])
-        \/ n = 0 /\ p = 0 /\ \E t \in Types : HugeCall("reserve", [h |-> h, len |-> x, typ |-> t])
-        \/ p = 0 /\ n > 0 /\ HugeCall("slicewrite", [h |-> h, off |-> 0, len |-> 0, nblk |-> x, esz |-> n, data |-> <<>>, zero |-> 1])
-        \/ p = 0 /\ n > 0 /\ HugeCall("slicewrite", [h |-> h, off |-> 0, len |-> 0, nblk |-> n, esz |-> x, data |-> <<>>, zero |-> 1])
+  \E h \in H : (Prune => h = 1) /\
+     \/ \E x \in HOffs, n \in NS : BufExcl(h, TRUE) /\ HugeCall("bufcut", [h |-> h, off |-> x, n |-> n])
+     \/ \E x \in HOffs, p \in PS : BufExcl(h, TRUE) /\ HugeCall("bufcut", [h |-> h, off |-> p, n |-> x])
+     \/ \E x \in HOffs, n \in NS : BufExcl(h, FALSE) /\ HugeCall("bufinsert", [h |-> h, pos |-> x, data |-> Fresh(n), hl |-> 0])
+     \/ \E x \in HOffs, p \in PS : BufExcl(h, FALSE) /\ HugeCall("bufinsert", [h |-> h, pos |-> p, data |-> <<>>, hl |-> x])
+     \/ \E x \in HOffs, n \in NS : BufExcl(h, TRUE) /\
+           HugeCall("bufset", [h |-> h, typ |-> TypOf(h), pos |-> x, data |-> Fresh(n), zero |-> 0, hl |-> 0])
+     \/ \E x \in HOffs, p \in PS : BufExcl(h, TRUE) /\
+           HugeCall("bufset", [h |-> h, typ |-> TypOf(h), pos |-> p, data |-> <<>>, zero |-> 1, hl |-> x])
+     \/ \E x \in HOffs : HugeCall("append", [h |-> h, data |-> <<>>, zero |-> 1, hl |-> x])
+     \/ \E x \in HOffs, n \in NS : HugeCall("insert", [h |-> h, pos |-> x, data |-> Fresh(n), hl |-> 0])
+     \/ \E x \in HOffs, p \in PS : HugeCall("insert", [h |-> h, pos |-> p, data |-> <<>>, hl |-> x])
+     \/ \E y \in HLongs, n \in NS : TypOf(h) # "n" /\
+           HugeCall("settyped", [h |-> h, typ |-> IF TypOf(h) = "raw" THEN "c" ELSE TypOf(h),
+                                 data |-> Fresh(n), off |-> y, zero |-> 0, hl |-> 0])
+     \/ \E x \in HOffs, p \in PS :
+           HugeCall("settyped", [h |-> h, typ |-> IF TypOf(h) = "raw" THEN "c" ELSE TypOf(h),
+                                 data |-> <<>>, off |-> p, zero |-> 1, hl |-> x])
+     \/ \E x \in HOffs, n \in NS : HugeCall("slice", [h |-> h, off |-> x, data |-> Zeros(n), fill |-> 0, hl |-> 0])
+     \/ \E x \in HOffs, p \in PS : HugeCall("slice", [h |-> h, off |-> p, data |-> <<>>, fill |-> 0, hl |-> x])
+     \/ \E x \in HOffs, t \in Types : (Prune => t \in {TypOf(h), "raw"}) /\ HugeCall("reserve", [h |-> h, len |-> x, typ |-> t])
+     \/ \E x \in HOffs, n \in 1..2 : TypOf(h) = "raw" /\
+           HugeCall("slicewrite", [h |-> h, off |-> 0, len |-> 0, nblk |-> n, esz |-> x, data |-> <<>>, zero |-> 1])
 
 \* C++ array class
 NextHugeXArr ==
-  \E h \in H, x \in HOffs, p \in {0, MaxArg}, n \in {0, 1, MaxArg} :
-     /\ Prune => h = 1
-     /\ \/ HugeCall("xinsert", [h |-> h, pos |-> x, data |-> Fresh(n), zero |-> 0, hl |-> 0])
-        \/ n = 0 /\ HugeCall("xinsert", [h |-> h, pos |-> p, data |-> <<>>, zero |-> 1, hl |-> x])
-        \/ n = 0 /\ p = 0 /\ HugeCall("xset", [h |-> h, data |-> <<>>, zero |-> 1, hl |-> x])
-        \/ n = 0 /\ p = 0 /\ HugeCall("append", [h |-> h, data |-> <<>>, zero |-> 1, hl |-> x])
-        \/ n = 0 /\ p = 0 /\ BufExcl(h, TRUE) /\ HugeCall("xsetlength", [h |-> h, len |-> x])
-        \/ BufExcl(h, FALSE) /\ HugeCall("bufinsert", [h |-> h, pos |-> x, data |-> Fresh(n), hl |-> 0])
+  \E h \in H : (Prune => h = 1) /\
+     \/ \E x \in HOffs, n \in NS : HugeCall("xinsert", [h |-> h, pos |-> x, data |-> Fresh(n), zero |-> 0, hl |-> 0])
+     \/ \E x \in HOffs, p \in PS : HugeCall("xinsert", [h |-> h, pos |-> p, data |-> <<>>, zero |-> 1, hl |-> x])
+     \/ \E x \in HOffs : HugeCall("xset", [h |-> h, data |-> <<>>, zero |-> 1, hl |-> x])
+     \/ \E x \in HOffs : HugeCall("append", [h |-> h, data |-> <<>>, zero |-> 1, hl |-> x])
+     \/ \E x \in HOffs : BufExcl(h, TRUE) /\ HugeCall("xsetlength", [h |-> h, len |-> x])
+     \/ \E x \in HOffs, n \in NS : BufExcl(h, FALSE) /\ HugeCall("bufinsert", [h |-> h, pos |-> x, data |-> Fresh(n), hl |-> 0])
 
 \* C++ typed containers (long arguments)
 NextHugeXTyped ==
-  \E h \in H, y \in HLongs :
-     /\ Prune => h = 1
-     /\ \/ HugeCall("tinsert", [h |-> h, pos |-> y, data |-> <<Fresh(1)[1]>>])
-        \/ HugeCall("tset", [h |-> h, pos |-> y, data |-> <<Fresh(1)[1]>>])
-        \/ HugeCall("tget", [h |-> h, pos |-> y])
-        \/ HugeCall("treserve", [h |-> h, len |-> y])
-        \/ HugeCall("tresize", [h |-> h, len |-> y])
+  \E h \in H, y \in HLongs : (Prune => h = 1) /\
+     \/ HugeCall("tinsert", [h |-> h, pos |-> y, data |-> <<Fresh(1)[1]>>])
+     \/ HugeCall("tset", [h |-> h, pos |-> y, data |-> <<Fresh(1)[1]>>])
+     \/ HugeCall("tget", [h |-> h, pos |-> y])
+     \/ HugeCall("treserve", [h |-> h, len |-> y])
+     \/ HugeCall("tresize", [h |-> h, len |-> y])
 
 Data(n, z) == IF z = 1 THEN Zeros(n) ELSE Fresh(n)
 
